@@ -459,7 +459,7 @@ def check_spelling(res, txt):
 
 
 def plan(tier, seed):
-    shards = [("v4", p) for p in range(33)] + [("v6", p) for p in range(129)] + [("invalid", 0), ("spelling", 0)]
+    shards = [("v4", p) for p in range(33)] + [("v6", p) for p in range(129)] + [("invalid", 0), ("spelling", 0), ("mixed", 0)]
     return shards
 
 
@@ -474,6 +474,15 @@ def run_shard(shard, tier, seed):
     elif kind == "v6":
         for p, n in v6_networks(tier, [plen]):
             check_v6(res, p, n)
+    elif kind == "mixed":
+        # both address families in one process, alternating: networks whose address and prefix length coincide as integers
+        for p in range(33):
+            check_v4(res, p, 0)  # 0.0.0.0/p
+            check_v6(res, p, 0)  # ::/p
+            check_v4(res, p, 0)
+        for p in range(32, -1, -1):
+            check_v6(res, p, 0)
+            check_v4(res, p, 0)
     elif kind == "spelling":
         for s in spellings():
             check_spelling(res, s)
